@@ -106,3 +106,15 @@ def throw_then_traj(g, u, s):
     g.throw(u)
     m = g.event_mask
     return g.find_lat_long_along_traj(s[m])
+
+
+def need(ck, run, qn, names, search=None):
+    """the proof decomposition cuts at named intermediates of throw; if the (changed) code no longer has them the obligations that hang
+    on the cut are undecided -- the bounded native oracle of the property still runs"""
+    missing = [n for n in names if n not in run.locals]
+    if missing:
+        o = ck.ob("%s/cut.intermediates" % qn, "exec")
+        o.note = "throw no longer names the intermediates %s the proof is cut at; the deductive part that depends on them is undecided" % missing
+        ck._undecided(o, search)
+        return False
+    return True
